@@ -16,13 +16,15 @@ Try(b, h, f) == [t |-> "try", body |-> b, h |-> h, f |-> f]
 \* evloop / evsleep: the same under (eval '...): the evaluation started by a builtin runs under the caller's context
 \* derefc: deref of a future that was cancelled while its body is in a host call that ignores cancellation
 \* swapspin: a swap! whose update function writes the atom being swapped: it is retried for ever
-Basic == <<"loop", "rec", "macro", "sleep", "deref", "evloop", "evsleep", "derefc", "swapspin">>
+\* derefold: deref of a future that an EARLIER evaluation (another context) started and that is still running
+Basic == <<"loop", "rec", "macro", "sleep", "deref", "evloop", "evsleep", "derefc", "swapspin", "derefold">>
 
 \* lisp text of a shape
 Txt(t) == CASE t = "loop" -> "(lp 0)" [] t = "rec" -> "(rcl)" [] t = "macro" -> "(spin)"
             [] t = "sleep" -> "(sleep 100000)" [] t = "deref" -> "@(future (sleep 100000))" [] t = "value" -> ":h"
             [] t = "evloop" -> "(eval '(lp 0))" [] t = "evsleep" -> "(eval (list 'sleep 100000))"
             [] t = "derefc" -> "(let [fc (future (busy! 30000))] (future-cancel fc) @fc)"
+            [] t = "derefold" -> "@oldfut"
             [] t = "swapspin" -> "(swap! spa (fn [v] (reset! spa (+ v 1)) v))"
 RECURSIVE Text(_)
 \* a handler / finally body that is a plain value is written with TWO forms, the first one an effect: the handler
